@@ -40,3 +40,25 @@ func WithCancel(parent Context) (Context, CancelFunc) {
 func WithTimeout(parent Context, d time.Duration) (Context, CancelFunc) {
 	return WithCancel(parent)
 }
+
+// AfterFunc mirrors context.AfterFunc: f runs on a goroutine of its own some time after ctx is done - a managed goroutine
+// here, so that "some time after" is a choice of the schedule (it waits at the gate of a closed-channel receive, then runs f).
+// stop reports whether it prevented f from running.
+func AfterFunc(ctx Context, f func()) (stop func() bool) {
+	stopped, started := false, false
+	vsched.Go("vctx.AfterFunc", func() {
+		vsched.RecvStruct(ctx.Done())
+		if stopped {
+			return
+		}
+		started = true
+		f()
+	})
+	return func() bool {
+		if started || stopped {
+			return false
+		}
+		stopped = true
+		return true
+	}
+}
